@@ -49,7 +49,7 @@ def hist_obs(pr, r):
 
 class Prop:
     id = "C02"
-    coq_prop = "Properties/C01.v"      # -> "Properties/C02.v" once merged from agent/LBP (the main session switches it)
+    coq_prop = "Properties/C02.v"
     case_module = "CaseC02"
     case_vo = "theories/Cases/CaseC02.vo"
     run_fn = "run02"
